@@ -503,6 +503,7 @@ def cases_for(prop, tier, seed, pools, toks, ck):
             cases += gen.gen_histories("C01", lang, rnd, pools[lang], toks, per(10, 300), length=per(16, 30), adversarial=True)
             cases += gen.gen_joined_boundary_cases(lang, rnd, pools[lang], toks, per(6, 200))
             cases += gen.gen_long_title_cases(lang, rnd)
+            cases += gen.gen_long_word_cases("C01", lang, rnd, per(3, 60))
         # the same through the top-level API (lib.rs is part of what must not panic)
         cases += gen.gen_registry_cases(rnd, per(20, 600), pools, toks, length=per(30, 50))
     elif prop in ("C02", "C09"):
@@ -594,6 +595,7 @@ def plan_components(prop, tier, seed, t0):
         sc = []
         for lang in gen.LANGS:
             sc += gen.gen_histories("C19", lang, rnd, pools[lang] + gen.ADVERSARIAL, toks, sizes(tier, 5, 150), length=16, adversarial=True)
+            sc += gen.gen_long_word_cases("C19", lang, rnd, sizes(tier, 4, 80))
         m2 = run_cases(prop + "s", sc, ck, None, spec="TV_Store")
         merge_into(merged, m2)
     return verdict(prop, tier, seed, merged, l1, t0, spec="TV_Comp")
